@@ -5,7 +5,7 @@ receives opts.segments when present); B3 no vertex is dropped or duplicated betw
 vector (each stage is a map-like loop with exactly one push per element; normalize_longitudes is a map+collect).
 Not decided: finiteness, latitude range, orientation, 180-degree window, corner stability (numerical)."""
 from ..terms import fn_terms, fmt, strip_site, walk, const_int
-from ..query import loops_of, every_iteration, pushes_to, mutators_of, ref_key, returns_under, is_variant
+from ..query import option_default, loops_of, every_iteration, pushes_to, mutators_of, ref_key, returns_under, is_variant
 from ..run import where
 from .cell_common import *
 
@@ -42,7 +42,11 @@ def run(ctx):
     muts = mutators_of(ft, key)
     pushes = pushes_to(ft, key)
     # B1
-    opts_field = lambda t, name: t[0] == "field" and t[2] == name and any(x == ("param", 2) for x in walk(t))
+    def is_opts(t):
+        # the options value: the parameter itself, or its payload-or-default however that is spelled
+        od = option_default(ft, t)
+        return od is not None and od[0] == ("param", 2)
+    opts_field = lambda t, name: t[0] == "field" and t[2] == name and (any(x == ("param", 2) for x in walk(t)) or is_opts(t[1]))
     if len(pushes) != 1:
         run.bad("C11.B1", "closing-push", "expected exactly one push into the returned vector, found %d" % len(pushes), w)
     else:
